@@ -3370,7 +3370,20 @@ impl GraphEngine {
         Ok(id)
     }
 
+    /// Striped lock guarding the read-modify-write of one adjacency list.
+    fn adjacency_lock(&self, list_key: &str) -> &RwLock<()> {
+        use std::hash::{Hash, Hasher};
+        let mut hasher = std::collections::hash_map::DefaultHasher::new();
+        list_key.hash(&mut hasher);
+        #[allow(clippy::cast_possible_truncation)]
+        let idx = (hasher.finish() as usize) % self.index_locks.len();
+        &self.index_locks[idx]
+    }
+
     fn add_edge_to_list(&self, key: String, edge_id: u64) -> Result<()> {
+        // The list is a stored value updated by read-modify-write: serialize writers of one list,
+        // or concurrent edge creations on a shared node lose each other's entries.
+        let _lock = self.adjacency_lock(&key).write();
         let mut tensor = self.store.get(&key).unwrap_or_else(|_| TensorData::new());
         let mut edges = Self::extract_edge_ids(&tensor);
         if !edges.contains(&edge_id) {
@@ -6438,6 +6451,7 @@ impl GraphEngine {
     }
 
     fn remove_edge_from_list(&self, key: &str, edge_id: u64) -> Result<()> {
+        let _lock = self.adjacency_lock(key).write();
         if let Ok(mut tensor) = self.store.get(key) {
             // Remove from new Pointers format
             if let Some(TensorValue::Pointers(ptrs)) = tensor.get("_edges") {
